@@ -34,6 +34,9 @@ pub open spec fn upos_sum<S: Symbol>(pssm: Seq<Seq<u8>>, cells: Seq<S>, pos: int
     decreases n
 { if n <= 0 { 0 } else { upos_sum(pssm, cells, pos, n - 1) + pssm[n - 1][cells[pos + n - 1].idx() as int] as int } }
 
+/// saturating byte sum
+pub open spec fn sat255(x: int) -> int { if x > 255 { 255 } else { x } }
+
 /// number of valid positions: L - M + 1, none when L < M
 pub open spec fn n_pos(l: int, m: int) -> int { if l < m { 0 } else { l - m + 1 } }
 } // verus!
